@@ -15,12 +15,13 @@ package main
 
 import (
 	"fmt"
+	"strings"
 
 	"github.com/golang/geo/s2"
 	"verifharness/internal/vkit"
 )
 
-func main() { vkit.Main("C07", []string{"Model.Relations", "Model.Nest", "Model.RelTable"}, run) }
+func main() { vkit.Main("C07", []string{"Model.Relations", "Model.Nest", "Model.RangeIter", "Model.RelTable"}, run) }
 
 func coords(v []s2.Point) [][3]float64 {
 	out := make([][3]float64, len(v))
@@ -47,7 +48,9 @@ func run(c *vkit.Collector, rng *vkit.Rng, budget int) {
 	for k := 0; k < 10*budget; k++ {
 		a, b, class := pairGen(rng, []int{150, 250, 400}[rng.Intn(3)])
 		c.Class("bigpair:" + class)
-		doPair(c, rng, s2.LoopFromPoints(a), s2.LoopFromPoints(b), "big "+class, false)
+		la, lb := s2.LoopFromPoints(a), s2.LoopFromPoints(b)
+		doPair(c, rng, la, lb, "big "+class, false)
+		doSeeks(c, la, lb, "big "+class)
 	}
 	// empty / full against everything
 	for k := 0; k < 6*budget; k++ {
@@ -59,6 +62,18 @@ func run(c *vkit.Collector, rng *vkit.Rng, budget int) {
 		if k%3 == 0 {
 			doPair(c, rng, sp[rng.Intn(2)], sp[rng.Intn(2)], "special/special", true)
 		}
+	}
+	// index alignment: small loops at the first / last descendant of a cell of the large loop's index
+	for k := 0; k < 40*budget; k++ {
+		a, b, class := alignedPair(rng)
+		if !validLoop(a) || !validLoop(b) {
+			continue
+		}
+		c.Class("pair:" + class)
+		la, lb := s2.LoopFromPoints(a), s2.LoopFromPoints(b)
+		doPair(c, rng, la, lb, class, k%4 == 0)
+		doSeeks(c, la, lb, class)
+		doSeeks(c, lb, la, class)
 	}
 	// bounds: B is A without one (nearly collinear) vertex, so the regions almost coincide and the
 	// cached rectangles differ by rounding only; Contains must not depend on which is larger
@@ -314,4 +329,49 @@ func indexCells(l *s2.Loop) int {
 		n++
 	}
 	return n
+}
+
+// doSeeks: rangeIterator.seekTo / seekBeyond over a's index against cells of b's index (at most
+// 5), recorded for the Coq model of Model/RangeIter.v; and checked here against the documented
+// contract by linear scan.
+func doSeeks(c *vkit.Collector, a, b *s2.Loop, class string) {
+	a.ContainsPoint(a.Vertex(0)) // make sure both indexes are built
+	b.ContainsPoint(b.Vertex(0))
+	ids := s2.VerifC07IndexCellIDs(a)
+	nb := len(s2.VerifC07IndexCellIDs(b))
+	if len(ids) == 0 || nb == 0 {
+		return
+	}
+	zs := make([]string, len(ids))
+	for i, id := range ids {
+		zs[i] = vkit.U(uint64(id))
+	}
+	step := 1
+	if nb > 4 {
+		step = nb / 4
+	}
+	for pos := 0; pos < nb; pos += step {
+		for _, beyond := range []bool{false, true} {
+			tmin, tid, tmax, got := s2.VerifC07Seek(a, b, pos, beyond)
+			// contract: seekTo = first cell with rangeMax >= target.rangeMin; seekBeyond = first with rangeMin > target.rangeMax
+			want := len(ids)
+			for i, id := range ids {
+				if (!beyond && id.RangeMax() >= tmin) || (beyond && id.RangeMin() > tmax) {
+					want = i
+					break
+				}
+			}
+			name := "seekTo"
+			if beyond {
+				name = "seekBeyond"
+			}
+			c.Eval(fmt.Sprintf("%s %v %v", name, ids, tid), true)
+			if got != want {
+				c.Violate("rangeIterator."+name, fmt.Sprintf("%s lands on position %d, the first cell that overlaps or follows the target is %d [%s]", name, got, want, class),
+					map[string]interface{}{"index_cells": fmt.Sprint(ids), "target": []uint64{uint64(tmin), uint64(tid), uint64(tmax)}, "A": coords(a.Vertices()), "B": coords(b.Vertices())})
+			}
+			c.Check(fmt.Sprintf("%s cells=%d target=%x [%s]", name, len(ids), uint64(tid), class),
+				vkit.App("seek_check", "["+strings.Join(zs, "; ")+"]", vkit.U(uint64(tmin)), vkit.U(uint64(tid)), vkit.U(uint64(tmax)), vkit.B(beyond), fmt.Sprintf("%d%%nat", got)))
+		}
+	}
 }
